@@ -58,18 +58,20 @@ let run_pipeline (t : string list) (raw : bool) : string =
       let p = { Agg.p_metrics = Stdlib.List.map metric (Stdlib.String.split_on_char ',' ms);
                 Agg.p_gran = gran g; Agg.p_by = ngi > 0; Agg.p_calendar = true; Agg.p_week_start = z_of_string "0" } in
       let fl = parse_flows flows ngi in
-      let rows = Stdlib.List.concat (Stdlib.List.map (Agg.flow_rows p (nat_of_int ngi) (nat_of_int nfi)) fl) in
-      let merged = Stdlib.List.filter (fun e -> Agg.keep_group p (fst e)) (Agg.coord_merge rows) in
-      let out = Stdlib.List.map (fun ((b, gs), st) ->
-          ((match b with Some z -> Some (zt_of_z z) | None -> None),
-           Stdlib.List.map str_of_bytes gs,
-           Stdlib.String.concat "," (Stdlib.List.map (if raw then state_str else final_str) st))) merged in
-      let out = Stdlib.List.sort compare out in
-      let parts = Stdlib.List.map (fun (b, gs, ms) ->
-          Printf.sprintf "%s;%s;%s" (match b with Some z -> Z.to_string z | None -> "-")
-            (Stdlib.String.concat "." (Stdlib.List.map (fun g -> if g = "" then "-" else
-               Stdlib.String.concat "" (Stdlib.List.map (fun c -> Printf.sprintf "%02x" (Char.code c)) (Stdlib.List.of_seq (Stdlib.String.to_seq g)))) gs)) ms) out in
-      Printf.sprintf "G%d %s" (Stdlib.List.length parts) (Stdlib.String.concat " " parts)
+      let alts = Agg.merged_groups_alts p (nat_of_int ngi) (nat_of_int nfi) fl in
+      let render merged =
+        let out = Stdlib.List.map (fun ((b, gs), st) ->
+            ((match b with Some z -> Some (zt_of_z z) | None -> None),
+             Stdlib.List.map str_of_bytes gs,
+             Stdlib.String.concat "," (Stdlib.List.map (if raw then state_str else final_str) st))) merged in
+        let out = Stdlib.List.sort compare out in
+        let parts = Stdlib.List.map (fun (b, gs, ms) ->
+            Printf.sprintf "%s;%s;%s" (match b with Some z -> Z.to_string z | None -> "-")
+              (Stdlib.String.concat "." (Stdlib.List.map (fun g -> if g = "" then "-" else
+                 Stdlib.String.concat "" (Stdlib.List.map (fun c -> Printf.sprintf "%02x" (Char.code c)) (Stdlib.List.of_seq (Stdlib.String.to_seq g)))) gs)) ms) out in
+        Printf.sprintf "G%d %s" (Stdlib.List.length parts) (Stdlib.String.concat " " parts) in
+      (* one line per possible outcome (the sink may lose one of two ungrouped partials) *)
+      Stdlib.String.concat " ## " (Stdlib.List.sort_uniq compare (Stdlib.List.map render alts))
   | _ -> "BADCASE"
 
 let run (t : string list) : string =
@@ -80,8 +82,10 @@ let run (t : string list) : string =
       (match gran g with
        | None -> "BADGRAN"
        | Some gr ->
-           let c = Bucket.calendar_bucket_of (z_of_string ws) (z_of_string ts) gr in
-           Printf.sprintf "C %s U %s N %s" (string_of_z c) (string_of_z c) (string_of_z (Bucket.naive_bucket_of (z_of_string ts) gr)))
+           (match Bucket.calendar_bucket_of_opt (z_of_string ws) (z_of_string ts) gr with
+            | None -> "PANIC"
+            | Some c ->
+                Printf.sprintf "C %s U %s N %s" (string_of_z c) (string_of_z c) (string_of_z (Bucket.naive_bucket_of (z_of_string ts) gr))))
   | _ -> "UNKNOWN_PROBE"
 
 let init () = Registry.register "agg_" run
